@@ -34,6 +34,7 @@ def collect(tier, seed):
     for k, o in out.items():
         if tag(o) == 'obs' and isinstance(o[5], str):
             mlines.append('%s (decode %s %s %s)' % (k, CFG, show(o[1]), o[5]))
+            mlines.append('%s|au (audit %s %s %s)' % (k, CFG, show(o[1]), o[5]))
             if tag(o[9]) == 'ok' and tag(o[9][2]) == 'ok':
                 mlines.append('%s|tv (decode %s %s %s)' % (k, CFG, show(o[1]), o[9][2][1]))
     model = sj.run_model(mlines)
@@ -68,6 +69,10 @@ def judge(run, out, model):
             continue
         if canon(m[1], True) != canon(generic[1], True):
             run.disagree('decode-value', case, show(generic[1])[:160], show(m[1])[:160])
+            continue
+        au = model.get(k + '|au')
+        if au is None or tag(au) != 'ok' or au[1] != '#':
+            run.fail('block-size-wrong', 'a block announces a byte size that is not the size of its items (strict audit: %s)' % (show(au)[:40] if au is not None else 'none'), case)
             continue
         val = canon(m[1], True)
         per_value.setdefault((t, i), {})[b] = val
